@@ -1,8 +1,8 @@
 (* C08/Props.v — the property theorems, nothing else.
-   Model: C08/Model.v.  Proofs: Frame.v, PassA.v, PassB.v, PassC.v, PassD.v, Chunk.v, Live.v, Live2.v. *)
+   Model: C08/Model.v.  Proofs: Frame.v, PassA.v, PassB.v, PassC.v, PassD.v, Chunk.v, Live.v, Live2.v, Live3.v. *)
 From Coq Require Import List NArith ZArith Bool.
 Import ListNotations.
-Require Import Base.Wire Base.PyStr C08.Model C08.Frame C08.PassA C08.PassB C08.PassC C08.PassD C08.Chunk C08.Live C08.Live2.
+Require Import Base.Wire Base.PyStr C08.Model C08.Frame C08.PassA C08.PassB C08.PassC C08.PassD C08.Chunk C08.Live C08.Live2 C08.Live3.
 
 (* For every configuration, every state satisfying the invariant (in particular
    the state right after a reset) and EVERY sequence of server messages
@@ -172,6 +172,51 @@ Theorem C08_liveness_required_aborts :
   existsb (existsb is_abort) (snd (game cfg_required1 sigma 3)) = true.
 Proof. exact required_failure_aborts. Qed.
 Print Assumptions C08_liveness_required_aborts.
+
+(* ---- liveness against servers that also reject the nick (Live3.v) ----
+   The bot side is stepN = the registration machine + the nick generator of
+   Irc._getNextNick (alternates, then the configured nick itself, then random
+   variants); gameN is the lock-step game on it.  The server (conformantN K):
+   as before, and in addition, at the start of any response before the welcome
+   burst it may reject the current nick with 432/433/437 (at most K times in
+   all); while the nick is rejected it withholds the welcome burst; a
+   replacement NICK is rejected again or accepted, and the withheld welcome
+   burst follows the accepted one.  Proved: for every PLAIN/EXTERNAL
+   configuration, every such strategy with K <= the number of configured nick
+   alternates na, the bot is CONNECTED or has dropped the connection within
+   2 * |mechanisms| + 3 + K rounds.  (Measure: rounds of the phase + rejections
+   left; a rejection is answered by a NICK in whatever fsm state -- INIT_SASL
+   included -- and changes nothing else: after_only_376 / step_rejection.)
+   Beyond na rejections it is FALSE for the pinned code: finding C08.F26 below. *)
+Theorem C08_liveness_nick :
+  forall c na K sigma, cfg_ok c -> conformantN K sigma -> (K <= na)%nat ->
+  exists k, (k <= 2 * length (c_mechs c) + 3 + K)%nat /\ finishedN (gameN c na sigma k).
+Proof. exact liveness_nick. Qed.
+Print Assumptions C08_liveness_nick.
+
+(* the rejecting servers the harness plays are conformant (python mirror diffed against the extracted strategyN) *)
+Theorem C08_strategyN_conformant : forall v plan K choices, conformantN K (strategyN v plan K choices).
+Proof. exact strategyN_conformant. Qed.
+Print Assumptions C08_strategyN_conformant.
+
+(* instances: the nick rejected during the SASL exchange; twice from the start; after CAP END; by a server without CAP *)
+Theorem C08_liveness_nick_witnesses :
+  connectedN_in (cfg_plain true) 2 (strategyN srv_all [2%nat] 1 []) 6 = true /\
+  connectedN_in (cfg_plain true) 2 (strategyN srv_all [0%nat] 2 (repeat 1%N 3 ++ [1%N] ++ repeat 0%N 30)) 7 = true /\
+  connectedN_in (cfg_plain true) 2 (strategyN srv_all [4%nat] 1 []) 6 = true /\
+  connectedN_in cfg_nosasl 2 (strategyN (Srv false [] true) [0%nat] 2 (repeat 1%N 40)) 3 = true.
+Proof. exact liveness_nick_witnesses. Qed.
+Print Assumptions C08_liveness_nick_witnesses.
+
+(* refuted beyond the alternates (finding C08.F26): 2 alternates, 3 rejections: the third candidate is the configured
+   nick itself, do43x raises and sends nothing; the bot waits for the welcome burst, the server for a NICK, for ever *)
+Theorem C08_liveness_nick_refuted :
+  let sigma := strategyN srv_all [0%nat] 3 (repeat 1%N 40) in
+  let g := gameN (cfg_plain true) 2 sigma 4 in
+  fsm (fst (fst g)) = WAIT_MOTD /\ snd (fst g) = Nk 0 true /\ existsb (existsb is_abort) (snd g) = false /\ sigma (snd g) = [] /\
+  gameN (cfg_plain true) 2 sigma 8 = (fst g, [] :: [] :: [] :: [] :: snd g).
+Proof. exact liveness_nick_stuck. Qed.
+Print Assumptions C08_liveness_nick_refuted.
 
 (* After a reset the capability and SASL state is the initial one ... *)
 Theorem C08_reset_fresh :
